@@ -602,8 +602,12 @@ def _same(a, b):
     return _strip(a) == _strip(b)
 
 
+_STRIP_RX = re.compile(r"::(deref|deref_mut|as_ref|as_mut|as_str|as_slice|as_mut_slice|as_deref|as_bytes|borrow|borrow_mut|clone)$")
+
+
 def _strip(d):
-    while isinstance(d, tuple) and d and d[0] == "call" and re.search(r"(Deref::deref|AsRef::as_ref|::as_ref|::as_mut|::as_str|::as_slice|::as_deref|Borrow::borrow|::clone)$", d[1]) and d[2]:
+    """Peel value-preserving wrappers (deref / as_ref / as_str / borrow / clone) off a description."""
+    while isinstance(d, tuple) and d and d[0] == "call" and _STRIP_RX.search(d[1]) and d[2]:
         d = d[2][0]
     return d
 
